@@ -13,7 +13,7 @@ Heap object `n` is `O <Class> [ field value … ]` (instance), `M [ … ]` with 
 (`TagAttrDict` / `dict`), or `L [ … ]` (`list`); a reference is `O <Class> [ __id__ I n ]`.  The real objects are built with
 identity, the real function is called, and the answer is the object graph reachable from the result, in depth-first order
 of `__dict__` / items: an object of the original heap is written as its reference, an object *created by the call* is
-written in full at its first visit as `O new [ k I <k> v <object> ]` (k = visit order) and as `O new [ k I <k> ]` afterwards.
+written in full at its first visit as `O new [ k I <k> c S <class> v <object> ]` (k = visit order) and as `O new [ k I <k> ]` afterwards.
 The second part is the original heap read back after the call (the original must be unchanged).  The driver writes the same
 thing from the Lean heap (Ops/SrcC08b.lean), so the comparison is about the *shape of the object graph*: which objects are new,
 which are shared with the original.
